@@ -775,13 +775,36 @@ def phase_isect_node(ctx, n):
     except vf.BuildFailure as e:
         ctx.violation('tie-break:cx_isectnode', 'AddNewIntersectNode harness no longer builds: %s' % str(e)[-500:], replay=dict(error=str(e)[-2000:]), nofail=True)
         return True
-    oracle = vf.oracle_build('isectnode')
+    try:
+        oracle = vf.oracle_build('isectnode')
+    except vf.Infra as e:
+        # the model is written over the REGENERATED leaves: when one of them can no longer be translated (or changed its
+        # signature) the model does not build -- a correspondence break, not an infrastructure failure
+        ctx.violation('tie-break:isectnode-model', 'model/IsectNode.v no longer builds over the regenerated GetSegmentIntersectPt / GetClosestPointOnSegment / TopX: %s'
+                      % str(e)[-500:], replay=dict(error=str(e)[-2000:]), nofail=True)
+        return True
     rng = ctx.rng.fork(7)
     bodies = [b for b in (gen_ani(rng) for _ in range(n)) if b]
     bodies += ['600 -2 -600 -4 0 -20 1 30 -3 -4']
     bad = None
+
+    def crossing_in_range(b):
+        # CLIPPER2_HI_PRECISION computes the crossing without clamping and converts it with static_cast<int64_t>: for nearly
+        # parallel edges whose lines meet beyond +-2^61 that conversion is undefined behaviour (the sweep never asks for it:
+        # AddNewIntersectNode is called for edges that cross inside the scanbeam) -- outside the domain of the tie
+        v = [int(x) for x in b.split()]
+        (ax, ay, bx, by, cx, cy, dx, dy) = v[:8]
+        dx1, dy1, dx2, dy2 = bx - ax, by - ay, dx - cx, dy - cy
+        det = dy1 * dx2 - dy2 * dx1
+        if det == 0:
+            return True
+        tn = (ax - cx) * dy2 - (ay - cy) * dx2
+        lim = 1 << 61
+        return abs(ax * det + tn * dx1) < lim * abs(det) and abs(ay * det + tn * dy1) < lim * abs(det)
     for v in ('lo', 'hi'):
-        lines = ['ANI %s %s' % (v, b) for b in bodies]
+        use = bodies if v == 'lo' else [b for b in bodies if crossing_in_range(b)]
+        ctx.count('isect_node_hi_cases_outside_int64_not_run', len(bodies) - len(use))
+        lines = ['ANI %s %s' % (v, b) for b in use]
         got = need(*vf.par_lines(exes[v], lines, timeout=900), 'cx_isectnode')
         want = need(*vf.par_lines(oracle, lines, timeout=900), 'oracle_isectnode')
         for l, g, w in zip(lines, got, want):
